@@ -96,6 +96,11 @@ def run(ck):
     R7 = ck.rule('R11.7', "a refusal reaches a dispatcher: no call that (transitively) delivers an "
                  "event sits in a `try` whose handler catches EdzedCircuitError without "
                  "re-raising, except the three enumerated designated sinks", 'M0', 3)
+    R8 = ck.rule('R11.8', "abstract run of SBlock.event (22 scenarios: kind of event type x 'value' item x guard "
+                 "on entry x initialisation progress x handler outcome): a recursive event is refused and "
+                 "leaves the outer guard set; the guard is set while a handler runs and released after every "
+                 "outcome; a conditional event resolves by the truth value of 'value' (missing = false) and "
+                 "'no event' neither locks nor initialises; the initialising event is let through", 'M0', 4)
     R6 = ck.rule('R11.6', "non-events neither lock nor stop: unknown-event errors are re-raised "
                  "without abort; FSM raises EdzedUnknownEvent before any effect", 'M0', 3)
 
@@ -375,3 +380,9 @@ def run(ck):
                               f"does not re-raise: the EdzedCircuitError of a refused (looped-back) "
                               f"event is swallowed here and never stops the simulation", fi, call)
         ck.need(R7, n7 >= 3, f"only {n7} swallowing-handler/delivery pairs found (3 confirmed by hand)")
+
+    with ck.section('R11.8'):
+        # ------------------------------------------------------------------ R11.8
+        from rules.eventrun import event_run_obligations
+        ck.need(R8, event_run_obligations(ck, R8, ('refuse', 'unlock', 'cond', 'dispatch', 'init')),
+                "SBlock.event could not be interpreted")
